@@ -12,6 +12,15 @@ Three generated sub-domains, one oracle.
                refssh: unknown names, duplicates, empty lists, and the pseudo names
                ext-info-c/s, kex-strict-c/s-v00@openssh.com at arbitrary positions of any list.
 (c) end2end:   configurations of (a) run as complete handshakes between two Transport threads.
+(d) session:   the negotiation of RE-EXCHANGES. A configuration of (a) is run as a complete handshake, then
+               1..2 further key exchanges follow on the same two Transports (initiator drawn per round). Before
+               each one the configuration changes: a side gets freshly drawn preference lists (SecurityOptions)
+               and / or another disabled set, the server may get further host keys (add_server_key), or - the
+               synthetic variant, either role - the non-tested peer puts a harness-built KEXINIT (as in (b):
+               unknown / duplicate / pseudo names, other orders) on the wire instead of its own when re-keying.
+               Every negotiation of the session - initial and re-exchanges - is judged by the oracle below from
+               the pair of KEXINIT payloads of THAT exchange (own: as handed to the packetizer, peer's: as
+               received), i.e. nothing a side remembers from an earlier exchange may influence the result.
 
 Oracle (from the two KEXINIT payloads as they appear on the wire, parsed with refssh): per
 category (kex, host key, cipher c2s/s2c, mac c2s/s2c, compression c2s/s2c) the agreed name
@@ -35,9 +44,13 @@ RULE = (
     "hypothesis-drawn per-side configurations: per category a permutation of a subset of paramiko's names "
     "(SecurityOptions) plus a random disabled subset, server host-key subset, moduli pack on/off, strict flag; "
     "(a) real KEXINIT of each side fed to the other side's _parse_kex_init, (b) one real side against a harness-built "
-    "KEXINIT with unknown/duplicate/pseudo names and empty lists, (c) a sample as full threaded handshakes. "
+    "KEXINIT with unknown/duplicate/pseudo names and empty lists, (c) a sample as full threaded handshakes, (d) sessions: full "
+    "handshake followed by 1..2 re-exchanges (initiator drawn) before each of which a side's preference lists / disabled set are "
+    "re-drawn, host keys are added, or the non-tested peer (either role) sends a harness-built KEXINIT; every exchange judged from "
+    "its own pair of KEXINITs; plus an enumerated floor: category (5) x initiator (2) x {client list rotated, rotated against a "
+    "synthetic server, synthetic client with rotated lists}. "
     "non-trivial = negotiation fails, or in some category both wire lists have >= 2 names and the agreed name is not "
-    "the client's first; distinct by the full configuration"
+    "the client's first, or (sessions) a re-exchange was negotiated; distinct by the full configuration"
 )
 
 KEXCLS = {
@@ -126,6 +139,66 @@ def direct_cases(mode="direct"):
             "pack": st.booleans(),
         }
     )
+
+
+def _wide_side():
+    wide_prefs = st.fixed_dictionaries({c: _wide_list(u) for c, u in UNIVERSE.items()})
+    one = st.fixed_dictionaries({c: st.lists(st.sampled_from(u), unique=True, max_size=1) for c, u in UNIVERSE.items()})
+    none = st.just({c: [] for c in UNIVERSE})
+    return st.fixed_dictionaries({"prefs": wide_prefs, "disabled": st.one_of(none, one), "strict": st.booleans()})
+
+
+def session_cases():
+    """Mostly agreeing initial configurations (the point is what happens afterwards)."""
+    base = st.fixed_dictionaries(
+        {
+            "mode": st.just("session"),
+            "client": weighted((5, _wide_side()), (1, _side())),
+            "server": weighted((5, _wide_side()), (1, _side())),
+            "hostkeys": st.lists(st.sampled_from(HOSTKEYS), unique=True, min_size=2, max_size=5),
+            "pack": st.booleans(),
+        }
+    )
+    full = _wide_side().map(lambda sd: {"prefs": sd["prefs"]})
+    some = st.tuples(_wide_side(), st.lists(st.sampled_from(list(UNIVERSE)), unique=True, min_size=1, max_size=3)).map(lambda t: {"prefs": {c: t[0]["prefs"][c] for c in t[1]}})
+    narrow = _side().map(lambda sd: {"prefs": sd["prefs"], "disabled": sd["disabled"]})
+    dis = _wide_side().map(lambda sd: {"disabled": sd["disabled"]})
+    redraw = weighted((2, st.none()), (3, full), (2, some), (1, narrow), (1, dis))
+    who = st.sampled_from(["c", "s"])
+    addkeys = st.lists(st.sampled_from(HOSTKEYS), unique=True, min_size=0, max_size=3)
+    honest = st.tuples(who, redraw, redraw, addkeys).map(lambda t: dict({"who": t[0], "client": t[1], "server": t[2]}, **({"addkeys": t[3]} if t[3] else {})))
+
+    def synth(tested):
+        # the tested side may be reconfigured as well; the puppet's own lists do not matter
+        return st.tuples(who, redraw, _peer_lists(True)).map(lambda t: {"who": t[0], tested: t[1], "synthetic": {"tested": tested, "peer": t[2]}})
+
+    rnd = weighted((4, honest), (1, synth("client")), (1, synth("server")))
+    return st.tuples(base, st.lists(rnd, min_size=1, max_size=2)).map(lambda t: dict(t[0], rounds=t[1]))
+
+
+def session_floor():
+    """Deterministic sessions: for every category x initiator, one re-exchange in which (i) the client's
+    list is rotated so that another mutual name comes first while the previous choice stays on offer,
+    (ii) the same against a synthetic server KEXINIT (client tested), (iii) a synthetic client KEXINIT
+    with rotated lists (server tested)."""
+    full = {c: list(u) for c, u in UNIVERSE.items()}
+    side = {"prefs": full, "disabled": {c: [] for c in UNIVERSE}, "strict": True}
+    wire = {"kex": ["kex"], "keys": ["hostkey"], "ciphers": ["enc_c2s", "enc_s2c"], "macs": ["mac_c2s", "mac_s2c"], "compression": ["comp_c2s", "comp_s2c"]}
+    out = []
+    for ci, cat in enumerate(UNIVERSE):
+        rot = full[cat][1:] + full[cat][:1]
+        for wi, who in enumerate("cs"):
+            base = {"mode": "session", "client": side, "server": side, "hostkeys": list(HOSTKEYS), "pack": True}
+            out.append(dict(base, rounds=[{"who": who, "client": {"prefs": {cat: rot}}, "server": None}]))
+            peer = {w: list(reversed(full[c])) for c, ws in wire.items() for w in ws}
+            peer["follows"] = False
+            out.append(dict(base, rounds=[{"who": who, "client": {"prefs": {cat: rot}}, "synthetic": {"tested": "client", "peer": peer}}]))
+            peer = {w: list(full[c]) for c, ws in wire.items() for w in ws}
+            for w in wire[cat]:
+                peer[w] = list(rot) + (["unknown@verif"] if (ci + wi) % 2 else [])
+            peer["follows"] = False
+            out.append(dict(base, rounds=[{"who": who, "server": None, "synthetic": {"tested": "server", "peer": peer}}]))
+    return out
 
 
 def _names(cat, rich):
@@ -401,7 +474,227 @@ def run_e2e(ctx, case):
     return ok
 
 
+# ----------------------------------------------------------------------------- sessions (re-exchanges)
+
+
+def _session_classes():
+    """Built lazily (paramiko is imported by vlib.peers)."""
+    import paramiko
+    from paramiko.message import Message
+    from paramiko.packet import Packetizer
+
+    class KRec(Packetizer):
+        """Records the KEXINIT payloads this side hands to the packetizer (documented hook:
+        Transport(packetizer_class=...))."""
+
+        def __init__(self, sock):
+            Packetizer.__init__(self, sock)
+            self.kexinits = []
+
+        def send_message(self, data):
+            raw = data.asbytes()
+            if raw[:1] == b"\x14":
+                self.kexinits.append(raw)
+            return Packetizer.send_message(self, data)
+
+    class ST(peers.VTransport):
+        """Records the outcome of every negotiation (recording only); as the non-tested peer it can
+        put a harness-built KEXINIT on the wire instead of its own (`v_synth` {exchange no: payload})."""
+
+        def __init__(self, sock, **kw):
+            kw.setdefault("packetizer_class", KRec)
+            self.n_neg = []  # per negotiation: (outcome, peer's KEXINIT payload as received)
+            self.n_kexinits_sent = 0
+            self.v_synth = {}
+            peers.VTransport.__init__(self, sock, **kw)
+
+        def _parse_kex_init(self, m):
+            peer = b"\x14" + m.asbytes()
+            try:
+                peers.VTransport._parse_kex_init(self, m)
+            except paramiko.ssh_exception.IncompatiblePeer:
+                self.n_neg.append(("incompatible", peer))
+                raise
+            except Exception as e:
+                self.n_neg.append(("exc:%s" % type(e).__name__, peer))
+                raise
+            self.n_neg.append(
+                (
+                    {
+                        "kex": CLSKEX.get(type(self.kex_engine).__name__, type(self.kex_engine).__name__),
+                        "hostkey": self.host_key_type,
+                        "local_cipher": self.local_cipher,
+                        "remote_cipher": self.remote_cipher,
+                        "local_mac": self.local_mac,
+                        "remote_mac": self.remote_mac,
+                        "local_compression": self.local_compression,
+                        "remote_compression": self.remote_compression,
+                    },
+                    peer,
+                )
+            )
+
+        def _send_message(self, data):
+            raw = data.asbytes()
+            if raw[:1] == b"\x14":
+                self.n_kexinits_sent += 1
+                synth = self.v_synth.get(self.n_kexinits_sent)
+                if synth is not None:
+                    data = Message(synth)
+            return peers.VTransport._send_message(self, data)
+
+    return ST
+
+
+_ST = []
+
+
+def _reconfigure(t, side):
+    """Change a live Transport's configuration: preference lists through SecurityOptions, the
+    disabled set through the public `disabled_algorithms` attribute the constructor fills."""
+    if side.get("prefs"):
+        so = t.get_security_options()
+        for cat, (attr, _) in CATS.items():
+            if cat in side["prefs"]:
+                setattr(so, attr, list(side["prefs"][cat]))
+    if side.get("disabled") is not None:
+        t.disabled_algorithms = {CATS[c][1]: list(v) for c, v in side["disabled"].items()}
+
+
+def _wait(pred, timeout):
+    import time
+
+    end = time.time() + timeout
+    while time.time() < end:
+        if pred():
+            return True
+        time.sleep(0.002)
+    return pred()
+
+
+def run_session(ctx, case):
+    import threading
+
+    import paramiko
+
+    if not _ST:
+        _ST.append(_session_classes())
+    ST = _ST[0]
+    rounds = list(case.get("rounds") or [])
+    entries = [(2, mitm.group_prime(1024))] if case["pack"] else []
+    views = []  # per exchange: {"client": (own, peer, outcome, disabled), "server": ...}; missing side = not observed
+    notes = []
+    with mitm.modulus_pack(entries):
+        if not case["pack"]:
+            paramiko.Transport._modulus_pack = None
+        link, tc, ts = peers.make_pair(client_cls=ST, server_cls=ST, client_kw=_kw(case["client"]), server_kw=_kw(case["server"]), host_keys=tuple(case["hostkeys"]))
+        _apply(tc, case["client"])
+        _apply(ts, case["server"])
+        dis = {"client": _kw(case["client"])["disabled_algorithms"], "server": _kw(case["server"])["disabled_algorithms"]}
+        sides = {"client": tc, "server": ts}
+
+        def collect(k, only=None):
+            v = {}
+            for name, t in sides.items():
+                if only is not None and name != only:
+                    continue
+                neg, sent = list(t.n_neg), list(t.packetizer.kexinits)
+                if len(neg) > k and len(sent) > k:
+                    v[name] = (sent[k], neg[k][1], neg[k][0], dict(dis[name]))
+            views.append(v)
+            return v
+
+        try:
+            ce, se = peers.start_both(tc, ts, timeout=30.0)
+            if ce is not None:
+                ts.join(15)
+            v = collect(0)
+            alive = ce is None and se is None and all(isinstance(x[2], dict) for x in v.values()) and len(v) == 2
+            for k, rd in enumerate(rounds, start=1):
+                if not alive:
+                    notes.append("round-not-reached")
+                    break
+                if not mitm.wait_exchanges(k, tc, ts, timeout=30.0):
+                    notes.append("exchange-did-not-complete")
+                    break
+                for name in ("client", "server"):
+                    if rd.get(name):
+                        _reconfigure(sides[name], rd[name])
+                        if rd[name].get("disabled") is not None:
+                            dis[name] = sides[name].disabled_algorithms
+                pool = peers.keypool()
+                for kn in rd.get("addkeys") or []:
+                    ts.add_server_key(pool[kn])
+                tested = None
+                if rd.get("synthetic"):
+                    tested = rd["synthetic"]["tested"]
+                    puppet = ts if tested == "client" else tc
+                    peer = dict(rd["synthetic"]["peer"])
+                    peer["cookie"] = b"\x09" * 16
+                    puppet.v_synth[k + 1] = mitm.build_kexinit(peer)
+                starter = tc if rd["who"] == "c" else ts
+
+                def go(t=starter):
+                    try:
+                        t.renegotiate_keys()
+                    except BaseException:  # the outcome is read from the negotiation records
+                        pass
+
+                th = threading.Thread(target=go, daemon=True)
+                th.start()
+                watch = [sides[tested]] if tested else [tc, ts]
+                _wait(lambda: all(len(t.n_neg) > k or not t.is_active() for t in watch), 30.0)
+                if not tested:  # a side that dies of the other's verdict may not get to its own
+                    _wait(lambda: all(len(t.n_neg) > k for t in watch) or not any(t.is_active() for t in watch), 3.0)
+                v = collect(k, only=tested)
+                if tested:
+                    notes.append("synthetic-round-ends-session")
+                    break
+                alive = len(v) == 2 and all(isinstance(x[2], dict) for x in v.values())
+        finally:
+            peers.shutdown(tc, ts)
+            mitm.cancel_timers(tc, ts)
+    # ---- judge every negotiation from that exchange's own pair of KEXINITs
+    ok = True
+    cls = ["session", "session:re-exchanges-negotiated=%d" % max(0, len(views) - 1)]
+    prev_ref = None
+    for k, v in enumerate(views):
+        rd = rounds[k - 1] if k else {}
+        for name, (own, peer, outcome, d) in v.items():
+            ci, si = (mitm.parse_kexinit(own), mitm.parse_kexinit(peer)) if name == "client" else (mitm.parse_kexinit(peer), mitm.parse_kexinit(own))
+            ref, good = judge(ctx, dict(case, pack=case["pack"]), ci, si, {name: outcome}, {name: d})
+            ok = ok and good
+        if not v:
+            cls.append("session:exchange-unobserved")
+            continue
+        fail = any(x is None for x in ref.values())
+        if k:
+            cls.append("rekey:fail" if fail else "rekey:agree")
+            cls.append("rekey:initiator:" + ("client" if rd["who"] == "c" else "server"))
+            for name in ("client", "server"):
+                if rd.get(name):
+                    if rd[name].get("prefs"):
+                        cls.append("rekey:%s-preferences-redrawn" % name)
+                    if rd[name].get("disabled") is not None:
+                        cls.append("rekey:%s-disabled-set-changed" % name)
+            if rd.get("addkeys"):
+                cls.append("rekey:host-keys-added")
+            if rd.get("synthetic"):
+                cls.append("rekey:synthetic-kexinit:%s-tested" % rd["synthetic"]["tested"])
+            if prev_ref is not None and not fail:
+                for cat, name_ in ref.items():
+                    if name_ != prev_ref.get(cat) and prev_ref.get(cat) in ci[cat] and prev_ref.get(cat) in si[cat]:
+                        cls.append("rekey:%s:other-choice-while-previous-still-mutual" % cat)
+        prev_ref = None if fail else ref
+    for n_ in notes:
+        cls.append("session:" + n_)
+    ctx.case(case, len(views) > 1, cls)
+    return ok
+
+
 def _dispatch(ctx, case):
+    if case["mode"] == "session":
+        return run_session(ctx, case)
     if case["mode"] == "direct":
         return run_direct(ctx, case)
     if case["mode"] == "synthetic":
@@ -415,7 +708,11 @@ def run(ctx):
     ctx.explore(direct_cases(), lambda c: _dispatch(ctx, c), ctx.scale(1000, 18000), shrink=True, seed_offset=0)
     ctx.explore(synthetic_cases(), lambda c: _dispatch(ctx, c), ctx.scale(800, 15000), shrink=True, seed_offset=1)
     # end to end: threads involved, collect-then-continue
-    ctx.explore(direct_cases("e2e"), lambda c: _dispatch(ctx, c), ctx.scale(50, 600), shrink=False, seed_offset=2)
+    ctx.explore(direct_cases("e2e"), lambda c: _dispatch(ctx, c), ctx.scale(40, 600), shrink=False, seed_offset=2)
+    for j, c in enumerate(session_floor()):
+        if j % ctx.nworkers == ctx.worker and not ctx.out_of_time():
+            _dispatch(ctx, c)
+    ctx.explore(session_cases(), lambda c: _dispatch(ctx, c), ctx.scale(60, 1500), shrink=False, seed_offset=3)
 
 
 def replay(ctx, case):
